@@ -137,7 +137,7 @@ func (it *omapIter) next() tuple {
 		switch it.i.mapOrder {
 		case mapOrderSymbolic:
 			if it.left > 1 {
-				pick = it.i.path.ForkN(it.left)
+				pick = it.i.path.ForkSchedule(it.left)
 			}
 		case mapOrderReverse:
 			pick = it.left - 1
